@@ -319,8 +319,69 @@ def r18_7(F, R):
                    lambda fn: fn.crate == "common.lib" or "boxworks::lang::" in fn.name or "boxworks::ds::" in fn.name, 8, aud)
 
 
+def r18_8(F, R):
+    from ..facts import callee_name
+    from ..dataflow import op_place, origin_calls
+    R.rule("R18.8", "the sign of a dimension applies to the whole number: in Lexer::parse_number a negation (unary minus, `* -1`, Neg::neg) whose result "
+                    "ends up in a Scaled / InfiniteGlue token negates a value that already contains the fractional part (it derives from "
+                    "from_decimal_digits or Scaled::new); negating the integer part alone gives -1.5fil = -0.5fil")
+    fn = [f for f in F.fns.values() if strip_generics(f.name) == "boxworks::lang::lexer::Lexer::parse_number"]
+    if len(fn) != 1:
+        raise AnchorError("R18.8: parse_number: %d matches" % len(fn))
+    fn = fn[0]
+    flow = Flow(fn)
+    negs = []  # (operand, result local, loc)
+    for b in fn.blocks:
+        for st in b["s"]:
+            if st["k"] != "=":
+                continue
+            rv = st["rv"]
+            if rv["k"] == "un" and rv.get("op") == "Neg":
+                negs.append((rv["a"], st["lhs"]["l"], fn.loc(st)))
+            if rv["k"] == "bin" and rv["op"].replace("WithOverflow", "") == "Mul":
+                for x, y in ((rv["a"], rv["b"]), (rv["b"], rv["a"])):
+                    if y.get("c", {}).get("int") == -1:
+                        negs.append((x, st["lhs"]["l"], fn.loc(st)))
+        t = b["t"]
+        if t["k"] == "call" and strip_generics(callee_name(t) or "").endswith("Neg>::neg") and t["args"]:
+            negs.append((t["args"][0], t["dest"]["l"], fn.loc(t)))
+    if len(negs) < 2:
+        raise AnchorError("R18.8: %d negations found in parse_number" % len(negs))
+    # token aggregates
+    scaled_srcs = set()
+    for b in fn.blocks:
+        for st in b["s"]:
+            if st["k"] == "=" and st["rv"]["k"] == "agg" and st["rv"].get("ak") == "adt" and st["rv"]["adt"].endswith("lexer::TokenValue") \
+                    and st["rv"]["variant"] in ("Scaled", "InfiniteGlue"):
+                for o in st["rv"]["ops"]:
+                    for k, v in flow.operand_origins(o):
+                        if k == "local":
+                            scaled_srcs.add(v)
+    n = 0
+    bad = []
+    for operand, res, loc in negs:
+        p = op_place(operand)
+        # does the negated value reach a Scaled / InfiniteGlue token?  (the result local, or for `s.0 *= -1` the base it is stored back into)
+        reaches = res in scaled_srcs or (p is not None and p["l"] in scaled_srcs)
+        if not reaches:
+            continue
+        n += 1
+        oc = origin_calls(flow.operand_origins(operand))
+        if not any(x.endswith("::from_decimal_digits") or x.endswith("Scaled::new") for x in oc):
+            bad.append(loc)
+    loc0 = "%s:%d" % (fn.file, fn.line)
+    if bad:
+        R.violation("R18.8", "parse_number/sign", "parse_number negates a value that does not contain the fractional part (at %s) and then builds a dimension from "
+                    "it: a negative number with a fraction gets the wrong magnitude" % bad[0], bad[0])
+    elif n < 1:
+        raise AnchorError("R18.8: no negation reaches a Scaled / InfiniteGlue token")
+    else:
+        R.ok("R18.8", "parse_number/sign", "%d negation(s) reach a dimension token, each over integer + fraction" % n, loc0, how="def-use")
+
+
 def run(F, R, tier):
     r18_1(F, R)
+    r18_8(F, R)
     r18_6(F, R)
     r18_5(F, R)
     r18_3(F, R)
